@@ -106,8 +106,29 @@ static void z_random_pair(void) {
   lp_upolynomial_delete(f); lp_upolynomial_delete(g); lp_upolynomial_delete(h);
 }
 
+/* factors whose constant terms dwarf every other coefficient: the coefficient bound that decides how far the modular factors
+   are lifted is then dominated by the constant term ((x - a)(x + b), (x^2 + a)(x - b), (x^2 - a)(x^2 + a) with a not a square) */
+static int is_square(long a) { long r = 0; while ((r + 1) * (r + 1) <= a) ++r; return r * r == a; }
+static void z_big_constant(void) {
+  long a = 50 + (long)rnd(20000), b = 50 + (long)rnd(20000);
+  unsigned shape = rnd(3);
+  long cg[4] = {0}, ch[4] = {0}; unsigned dg, dh;
+  if (shape == 0) { dg = 1; cg[0] = -a; cg[1] = 1; dh = 1; ch[0] = b; ch[1] = 1; }
+  else if (shape == 1) { dg = 2; cg[0] = a; cg[2] = 1; dh = 1; ch[0] = -b; ch[1] = 1; }
+  else { while (is_square(a)) ++a; dg = 2; cg[0] = -a; cg[2] = 1; dh = 2; ch[0] = a; ch[2] = 1; }
+  lp_upolynomial_t* g = lp_upolynomial_construct_from_long(lp_Z, dg, cg);
+  lp_upolynomial_t* h = lp_upolynomial_construct_from_long(lp_Z, dh, ch);
+  lp_upolynomial_t* f = lp_upolynomial_mul(g, h);
+  sb_begin("fac", "ufull"); sb_str(" Z "); sb_upoly(f); sb_sp(); sb_long(2); sb_sp(); sb_upoly(g); sb_str(" 1 "); sb_upoly(h); sb_str(" 1"); sb_arrow();
+  lp_upolynomial_factors_t* fs = lp_upolynomial_factor(f);
+  emit_factors(fs); sb_emit();
+  lp_upolynomial_factors_destruct(fs, 1);
+  lp_upolynomial_delete(f); lp_upolynomial_delete(g); lp_upolynomial_delete(h);
+}
+
 static void z_case(void) {
   if (chance(22)) { z_random_pair(); return; }
+  if (chance(10)) { z_big_constant(); return; }
   /* product of blocks with multiplicities, times a content */
   int idx[6], mult[6], nb = 0; unsigned deg = 0;
   unsigned shape = rnd(100);
